@@ -495,6 +495,21 @@ pub fn translate(repo: &str) -> String
             (ls.name, s)
         })
         .collect();
+    let const_key: Vec<(String, String)> = v
+        .consts
+        .iter()
+        .filter(|c| c.0 == "REF_KVP_KEY" && c.2 == "list N")
+        .map(|c| (c.0.clone(), c.1.clone()))
+        .collect();
+    if strings.iter().all(|x| x.0 != "REF_KVP_KEY") && const_key.len() == 1
+    {
+        // the key as a plain `const REF_KVP_KEY: &str` (already emitted with the other constants? no: emitted here)
+        out.push_str("(* REF_KVP_KEY is a const &str in the source now *)\n");
+        // the constants loop above has already written Definition c_REF_KVP_KEY; nothing more to do
+        out.push('\n');
+    }
+    else
+    {
     let key = match strings.iter().find(|x| x.0 == "REF_KVP_KEY")
     {
         Some(k) => k,
@@ -517,6 +532,7 @@ pub fn translate(repo: &str) -> String
         }
     }
     out.push('\n');
+    }
 
     // serde defaults, by YAML key: the function named in #[serde(default = "..")] of the field, whatever
     // the function and the struct are called
